@@ -1070,6 +1070,21 @@ def c09_scenarios(rng=None):
     return S
 
 
+def writes_after_publication(tr, ow):
+    out = []
+    for pid in tr:
+        published = {}
+        for i, e in enumerate(tr[pid]):
+            if e.op == "rename" and e.ret == 0 and e.p1 and e.p1.endswith(STAGING) and e.p2 and e.p2.startswith(ow.dst + "/"):
+                published[e.p1] = (i, e.p2)
+            elif e.op in ("openw",) and e.p1 in published:
+                del published[e.p1]  # the staging name is being used afresh
+            elif e.op in ("write", "pwrite", "pwrite64", "writev", "copy_file_range", "sendfile", "ftruncate") and e.p1 in published and e.ret >= 0:
+                out.append(("data-written-after-the-file-was-renamed-into-place", {"path": os.path.relpath(published[e.p1][1], ow.dst), "call": e.op, "bytes": e.ret, "calls_after_the_rename": i - published[e.p1][0]}))
+                del published[e.p1]
+    return out
+
+
 def _c09_worker(args):
     seedv, lo, hi, wroot, jobs = args
     res = {"evaluations": 0, "distinct": set(), "viol": [], "counters": {}, "samples": [], "inconclusive": 0}
@@ -1115,6 +1130,27 @@ def _c09_worker(args):
         old = content_map(dst0)
         srcids = content_map(src0)
         edit = name in scen and scen[name].get("edit_before_rerun")
+        # trace-order monitor on the uninterrupted run (local, pull): once a staging file has been renamed into place,
+        # no data call may still be issued on the descriptor that was opened under the staging name - a kill between the
+        # rename and that call leaves an incomplete file at the destination path, whether or not a sweep lands there
+        if direction != "push":
+            found_wap = writes_after_publication(read_traces(trace), ow)
+            # ... and on three more uninterrupted runs in which the shim sleeps a random 0-3 ms before every mutating
+            # call: two calls issued by different threads of the process then come in either order
+            for rep_i in range(3):
+                if found_wap:
+                    break
+                restore()
+                clear_traces(trace)
+                rdel = run(ow.argv(), shim_env(ow.env(), log=trace, delay="%d:3000" % (idx * 7 + rep_i + 1)), cwd=ow.home, timeout=180)
+                cnt("uninterrupted_runs_under_delay_injection")
+                if rdel.timed_out or rdel.code != 0:
+                    continue
+                found_wap = writes_after_publication(read_traces(trace), ow)
+                if not found_wap and content_map(snapshot(ow.dst)) != ref:
+                    res["viol"].append(("C09|%s|uninterrupted-run-under-delays-differs-from-reference" % direction, {"scenario": name}))
+            for sig, det in found_wap:
+                res["viol"].append(("C09|%s|%s" % (direction, sig), dict(det, scenario=name)))
 
         def edit_source():
             for i, pth in enumerate(sorted(transfer)):
